@@ -2,8 +2,8 @@ CONSTANTS
     Eras = {"shelley", "allegra", "mary", "alonzo", "babbage", "conway", "dijkstra"}
     Seed = 1
     MaxCerts = 3
-    PerBagLegacy = 20
-    PerBagGov = 6
+    PerBagLegacy = 30
+    PerBagGov = 8
 INIT Init
 NEXT Next
 INVARIANT VariantSane
